@@ -4,7 +4,7 @@ s=/verif/seeded/$1; p=$2; shift 2
 cd /repo || exit 9
 if ! git diff --quiet; then echo "/repo not clean"; exit 9; fi
 git apply "$s/patch.diff" || { echo "patch does not apply"; exit 9; }
-( cd /verif && ./check "$p" "$@" ); rc=$?
+( cd /verif && VERIF_EVIDENCE_DIR=/var/tmp/verif_seed_evidence ./check "$p" "$@" ); rc=$?
 git -C /repo checkout -- . 
 echo "seedtest $1 $p rc=$rc"
 exit $rc
